@@ -18,7 +18,7 @@ RULE = ("for each of data / x / y / query / buffer independently: owned C order,
 PARTIAL = ["stride-correctness of ndarray's own indexing (Zip, index_axis, windows, indexed_iter) is trusted and exercised, not proved"]
 ASSUMPTIONS = ["ndarray pairs equal logical indices whatever the strides"]
 
-LAY = re.compile(r"(?<= )(f|s2|s3|rev|perm|w)(?= \d)")
+LAY = re.compile(r"(?<= )(f|s2|s3|revl|rev|perm|w|neg|bc)(?= \d)")
 
 
 def to_c(line):
@@ -50,6 +50,13 @@ def generate(rng, tier):
                 qx = [rng.uniform(xs[0], xs[-1]) for _ in range(nq)]; qy = [rng.uniform(ys[0], ys[-1]) for _ in range(nq)]
             dtag, qtag = gen.pick_dims(rng, len(shape), qrank)
             ent = rng.choice(["array", "ainto", "single", "into"])
+            if nq >= 2 and rng.random() < 0.25:
+                # one coordinate the same for every point (the line protocol then hands that query over as a broadcast view with
+                # all strides 0 half of the time), the other varying
+                if rng.random() < 0.5:
+                    qx = [qx[0]] * nq
+                else:
+                    qy = [qy[0]] * nq
             if nq >= 2 and ent in ("array", "ainto") and rng.random() < 0.3:
                 # a failing call: two different rejected elements; which one the error names must not depend on any layout
                 p1, p2 = rng.sample(range(nq), 2)
